@@ -75,7 +75,7 @@ def impl(case):
     T, na = states.shape
     r = np.random.default_rng(case['tseed'])
     coords = np.mod(np.cumsum(r.normal(0, 0.01, size=(T, na, 3)), axis=0) + r.random((1, na, 3)), 1)
-    traj = synth.make_traj(m, ['Li'] * na, coords, time_step=case['dt'])
+    traj = synth.make_traj(m, ['Li'] * na, coords, time_step=case['dt'], images=synth.image_seed(case))
     ev = _calculate_transition_events(atom_sites=states, atom_inner_sites=inner)
     tr = Transitions(trajectory=traj, diff_trajectory=traj, sites=sites, events=ev, states=states, inner_states=inner)
     out = {'events': [[int(v) for v in row] for row in ev[['start site', 'destination site']].to_numpy()]}
